@@ -60,9 +60,12 @@ class ResponseCheck:
                 b = z3.BitVec(s.fresh('vs'), 8)
                 if ty == 'Characters':
                     ex.solver.add(z3.Or(in_range(b, 65, 90), in_range(b, 48, 57)))
-                else:
+                elif i >= 2 or n < 2:
                     ex.solver.add(z3.ULT(b, 128))
                 bs.append(b)
+            if ty != 'Characters' and n >= 2:
+                # the first two bytes: two ASCII characters or one 2-byte UTF-8 sequence (non-ASCII text must survive too)
+                ex.solver.add(z3.Or(z3.And(z3.ULT(bs[0], 128), z3.ULT(bs[1], 128)), z3.And(in_range(bs[0], 0xC2, 0xDF), in_range(bs[1], 0x80, 0xBF))))
             if ty == 'Characters':
                 return Adt('Characters', None, [mk_str(bs)]), ('chars', bs)
             if ty.startswith('heapless::String<'):
